@@ -24,9 +24,10 @@ EVENTS = {
 def cases(prop, tier):
     depth = 2 if tier == 'quick' else 3
     for pid in range(explore.NPOOLS):
-        n = explore.root_event_count(pid, True, set(EVENTS[prop]), depth)
+        dp = 2 if pid == 5 else depth          # pool 5 (order 4, uniform structure): depth 2 in both tiers
+        n = explore.root_event_count(pid, True, set(EVENTS[prop]), dp)
         for i in range(n):
-            yield {'g': 'E2', 'pid': pid, 'first': i, 'depth': depth}
+            yield {'g': 'E2', 'pid': pid, 'first': i, 'depth': dp}
     yield from repeat_cases(prop)
 
 
